@@ -7,7 +7,9 @@ from . import base
 from .c14 import worker
 
 PIPE = {"a": ["G:A", "R:A:pf", "R:A:an"], "b": ["G:B", "R:B:df", "R:B:bn"], "c": ["G:A", "R:A:df", "F:A:1", "R:A:pf"],
-        "d": ["G:B", "R:B:pf", "R:B:bn", "R:B:df"]}
+        "d": ["G:B", "R:B:pf", "R:B:bn", "R:B:df"],
+        # the same input rendered under different literal limits (5 distinct values: Literal under 10 / 16, str under 3)
+        "e": ["G:C", "R:C:d3", "R:C:df"], "f": ["G:C", "R:C:b16", "R:C:bn", "R:C:d3"]}
 
 
 def solo(name):
